@@ -13,11 +13,16 @@ for d in sorted(glob.glob("/verif/seeded/*/meta.json"), key=lambda p: (p.split("
     elif "VIOLATION" in line: verdict = "caught with a failing input"
     elif line.startswith("OK"): verdict = "**MISSED**"
     else: verdict = "(not run)"
-    sig = (m.get("first_signals") or [""])[0].lstrip("- ")[:110].replace("|", "/")
+    rc = m.get("recheck") or {}
+    rl = rc.get("line", "")
+    if rl:
+        now = ("caught, failing input" if ("VIOLATION" in rl and "no-failing-input-found" not in rl) else "caught, tie broken" if "VIOLATION" in rl else "MISSED" if rl.startswith("OK") else "?")
+        verdict += " -> now: " + now
+    sig = ((rc.get("first_signals") or m.get("first_signals") or [""])[0]).lstrip("- ")[:110].replace("|", "/")
     files = ", ".join(os.path.basename(f) for f in m.get("files_changed", []))[:60]
     summ = re.sub(r"\s+", " ", m.get("summary", ""))[:150].replace("|", "/")
     rows.append("| %s | %s | %s | %s | %s | %s |" % (sid, files, summ, "yes" if conf else "NO", verdict, sig))
-tab = "| id | file(s) | change | confirmed | verdict of `./check` (quick) | first signal |\n|---|---|---|---|---|---|\n" + "\n".join(rows)
+tab = "| id | file(s) | change | confirmed | verdict of `./check` (quick): at import -> after the strengthening of 15.6 | first signal |\n|---|---|---|---|---|---|\n" + "\n".join(rows)
 p = "/verif/DESIGN.md"; s = open(p).read()
 a, b = "<!-- SEEDED-TABLE-BEGIN -->", "<!-- SEEDED-TABLE-END -->"
 if a in s:
